@@ -398,12 +398,11 @@ func (n NaturalLanguageValues) MarshalJSON() ([]byte, error) {
 		if !empty {
 			b.Write([]byte{','})
 		}
-		if v, err := val.MarshalJSON(); err == nil && len(v) > 0 {
-			l, err := b.Write(v)
-			if err == nil && l > 0 {
-				empty = false
-			}
-		}
+		// every entry of a language map needs its member name, the untagged one ("-") included
+		stringBytes(&b, []byte(val.Ref), false)
+		b.Write([]byte{':'})
+		stringBytes(&b, val.Value, false)
+		empty = false
 	}
 	b.Write([]byte{'}'})
 	if !empty {
